@@ -194,14 +194,23 @@ package flate
 //@   loop 5 invariant -1 <= rangeindex && rangeindex < size && 0 <= size && size <= 8 && size <= len(input) && (size > 0 ==> 0 <= atentry(bitsLen)) && 8*size <= 64 - int(atentry(bitsLen)) && bitsLen == atentry(bitsLen) + int32(8*(rangeindex+1))
 //@   loop 6 invariant -1 <= rangeindex && rangeindex < size && 0 <= size && size <= 8 && size <= len(input) && (size > 0 ==> 0 <= atentry(bitsLen)) && 8*size <= 64 - int(atentry(bitsLen)) && bitsLen == atentry(bitsLen) + int32(8*(rangeindex+1))
 
+//@ pure lens7(t []huffCode) bool = forall k :: 0 <= k && k < len(t) ==> t[k].codeAndLength>>24 <= 7
+
+//@ func (*smallHuffCodeTable).GenerateForHeader
+//@   trusted "not yet verified: decoding table of the code length code (a bounded check of this builder runs with C02/C03/C18)"
+//@   requires len(codes) == 19 && lens7(codes) && len(count) >= 16
+//@   modifies *t, codes[*]
+//@   ensures clcOK(t)
+
 //@ func (*inflate).codeLenCodes
-//@   trusted "not yet verified: code length code lengths (HCLEN) and their decoding table"
 //@   requires[C03 ranges] 0 <= hclen && hclen <= 15
-//@   requires stBase(state) && state.bitsLen >= 0
+//@   requires state != nil && stBase(state) && state.bitsLen >= 0 && (state.bitsLen >= 12 || len(state.input) == 0)
 //@   modifies state.bits, state.bitsLen, state.input, state.dynHdr.clcTable
-//@   ensures result == nil || result == errEndInput || result == errInvalidBlock
-//@   ensures result == nil ==> clcOK(&state.dynHdr.clcTable)
-//@   ensures stBase(state) && (result != errEndInput ==> state.bitsLen >= 0) && remBits(state) <= old(remBits(state)) && len(state.input) <= old(len(state.input)) && sameobj(state.input, old(state.input)) && (state.input == nil) == (old(state.input) == nil)
+//@   ensures[C03 classify] result == nil || result == errEndInput || result == errInvalidBlock
+//@   ensures[C02 C03 clc-table] result == nil ==> clcOK(&state.dynHdr.clcTable)
+//@   ensures[C03 C04 bits] stBase(state) && (result != errEndInput ==> state.bitsLen >= 0) && remBits(state) <= old(remBits(state)) && len(state.input) <= old(len(state.input)) && sameobj(state.input, old(state.input)) && (state.input == nil) == (old(state.input) == nil)
+//@   loop 1 invariant 0 <= i && i <= 4 && state.bitsLen == old(state.bitsLen) - int32(3*i) && same(state.input) && lens7(codeHuff[:]) && (forall k :: 0 <= k && k < 19 ==> codeLengthOrder[k] < 19)
+//@   loop 2 invariant 4 <= i && i <= hclen + 4 && stBase(state) && state.bitsLen >= -12 - int32(3*(i-4)) && (len(state.input) != 0 ==> state.bitsLen >= 57 - int32(3*(i-4))) && remBits(state) <= old(remBits(state)) && len(state.input) <= old(len(state.input)) && sameobj(state.input, old(state.input)) && (state.input == nil) == (old(state.input) == nil) && lens7(codeHuff[:]) && (forall k :: 0 <= k && k < 19 ==> codeLengthOrder[k] < 19)
 
 //@ pure nc2(c []uint16) uint32 = uint32(c[1]) << 1
 //@ pure nc3(c []uint16) uint32 = (nc2(c) + uint32(c[2])) << 1
@@ -226,7 +235,7 @@ package flate
 //@   modifies table[*]
 //@   ensures[C03 classify] ret == 0 || ret == -1
 //@   ensures[C03 over-subscribed-rejected] ret == 0 ==> kraft15(count) <= 32768
-//@   ensures[C03 complete-or-degenerate] ret == 0 ==> kraft15(count) == 32768 || kraft15(count) == 0 || (kraft15(count) == 16384 && count[1] == 1)
+//@   ensures[C03 nocall complete-or-degenerate] ret == 0 ==> kraft15(count) == 32768 || kraft15(count) == 0 || (kraft15(count) == 16384 && count[1] == 1)
 //@   ensures[C03 lengths-kept] forall k :: 0 <= k && k < len(table) ==> table[k].codeAndLength>>24 == old(table[k].codeAndLength>>24)
 //@   loop 1 invariant 2 <= i && i <= 16 && nextCode[0] == 0 && nextCode[1] == 0 && (i > 2 ==> nextCode[2] == nc2(count)) && (i > 3 ==> nextCode[3] == nc3(count)) && (i > 4 ==> nextCode[4] == nc4(count)) && (i > 5 ==> nextCode[5] == nc5(count)) && (i > 6 ==> nextCode[6] == nc6(count)) && (i > 7 ==> nextCode[7] == nc7(count)) && (i > 8 ==> nextCode[8] == nc8(count)) && (i > 9 ==> nextCode[9] == nc9(count)) && (i > 10 ==> nextCode[10] == nc10(count)) && (i > 11 ==> nextCode[11] == nc11(count)) && (i > 12 ==> nextCode[12] == nc12(count)) && (i > 13 ==> nextCode[13] == nc13(count)) && (i > 14 ==> nextCode[14] == nc14(count)) && (i > 15 ==> nextCode[15] == nc15(count))
 //@   loop 2 invariant 0 <= i && i <= len(table) && (forall k :: 0 <= k && k < len(table) ==> table[k].codeAndLength>>24 == old(table[k].codeAndLength>>24))
